@@ -77,10 +77,12 @@ type SEv struct {
 	Kids   []int  `json:"kids"`
 	Code   int    `json:"code"` // enter: size of the code at the target when the frame was entered
 	// state facts the price of the instruction depends on (Artela side only; the trace specification prices SSTORE and calls from them)
-	Args  []int64 `json:"args"`  // call family: every stack operand as a small integer (-1: larger than 2^31)
-	Facts []int   `json:"facts"` // SSTORE: [slot warm]; call family: [target warm, exists, empty, value non-zero]; SELFDESTRUCT: [already destructed]; -1 unknown
-	Cur   string  `json:"cur"`   // SSTORE: current value of the slot
-	Orig  string  `json:"orig"`  // SSTORE: value of the slot at the start of the transaction
+	Args  []int64  `json:"args"`  // call family: every stack operand as a small integer (-1: larger than 2^31)
+	Facts []int    `json:"facts"` // SSTORE: [slot warm]; call family: [target warm, exists, empty, value non-zero]; SELFDESTRUCT: [already destructed]; -1 unknown
+	Tgt   string   `json:"tgt"`   // the address whose access-list status the price depends on (BALANCE, EXT*, calls, SELFDESTRUCT beneficiary)
+	Warm  []string `json:"warm"`  // reset line: the access list as the transaction starts (addresses, and "address/slot")
+	Cur   string   `json:"cur"`   // SSTORE: current value of the slot
+	Orig  string   `json:"orig"`  // SSTORE: value of the slot at the start of the transaction
 }
 
 // factState remembers the answers the gas functions got from the access list (they add the entry before the tracer is called)
@@ -239,6 +241,27 @@ func (r *aRec) facts(op vm.OpCode, scope *vm.ScopeContext) {
 			w = r.fs.lastSlotWarm
 		}
 		e.Facts = []int{w}
+	case vm.SLOAD:
+		if n < 1 {
+			return
+		}
+		key := common.Hash(st[n-1].Bytes32())
+		w := -1
+		if r.fs.lastSlotAddr == self && r.fs.lastSlot == key {
+			w = r.fs.lastSlotWarm
+		}
+		e.Facts = []int{w}
+	case vm.BALANCE, vm.EXTCODESIZE, vm.EXTCODECOPY, vm.EXTCODEHASH:
+		if n < 1 {
+			return
+		}
+		tgt := common.Address(st[n-1].Bytes20())
+		w := -1
+		if r.fs.lastAddr == tgt {
+			w = r.fs.lastAddrWarm
+		}
+		e.Tgt = hex.EncodeToString(tgt[:])
+		e.Facts = []int{w}
 	case vm.CALL, vm.CALLCODE, vm.DELEGATECALL, vm.STATICCALL:
 		need := 6
 		if op == vm.CALL || op == vm.CALLCODE {
@@ -264,9 +287,19 @@ func (r *aRec) facts(op vm.OpCode, scope *vm.ScopeContext) {
 		if need == 7 && !st[n-3].IsZero() {
 			val = 1
 		}
+		e.Tgt = hex.EncodeToString(tgt[:])
 		e.Facts = []int{w, b2i(r.fs.StateDB.Exist(tgt)), b2i(r.fs.StateDB.Empty(tgt)), val}
 	case vm.SELFDESTRUCT:
-		e.Facts = []int{b2i(r.fs.StateDB.HasSuicided(self))}
+		if n < 1 {
+			return
+		}
+		tgt := common.Address(st[n-1].Bytes20())
+		w := -1
+		if r.fs.lastAddr == tgt {
+			w = r.fs.lastAddrWarm
+		}
+		e.Tgt = hex.EncodeToString(tgt[:])
+		e.Facts = []int{b2i(r.fs.StateDB.HasSuicided(self)), w}
 	}
 }
 
@@ -445,8 +478,9 @@ type runOpts struct {
 type runOut struct {
 	evs    []SEv
 	result SEv
-	outs   []SEv // inherited tracer outputs
-	tree   []SEv // Artela only: the call tree as the exported query API returns it after the run (node lines + one tree line)
+	outs   []SEv    // inherited tracer outputs
+	warm   []string // Artela only: the access list at the start of the transaction (Berlin and later)
+	tree   []SEv    // Artela only: the call tree as the exported query API returns it after the run (node lines + one tree line)
 }
 
 // treeLines dumps the call tree through FindCall / ParentOf / ChildrenOf.
@@ -621,6 +655,24 @@ func runArtela(p *gen.Program, o runOpts) (out runOut) {
 	}
 	for _, s := range p.WarmSlots {
 		st.AddSlotToAccessList(p.To, s)
+	}
+	if rules.IsBerlin {
+		out.warm = append(out.warm, hex.EncodeToString(gen.EO[:]))
+		if dst != nil {
+			out.warm = append(out.warm, hex.EncodeToString(dst[:]))
+		}
+		for _, a := range vm.ActivePrecompiles(rules) {
+			out.warm = append(out.warm, hex.EncodeToString(a[:]))
+		}
+		if rules.IsShanghai {
+			out.warm = append(out.warm, hex.EncodeToString(evmx.DefaultCoinbase[:]))
+		}
+		for _, a := range p.WarmAddrs {
+			out.warm = append(out.warm, hex.EncodeToString(a[:]))
+		}
+		for _, k := range p.WarmSlots {
+			out.warm = append(out.warm, hex.EncodeToString(p.To[:])+"/"+new(uint256.Int).SetBytes(k[:]).Hex())
+		}
 	}
 	var ret []byte
 	var left uint64
@@ -838,6 +890,9 @@ func (p pairLine) MarshalJSON() ([]byte, error) {
 		if e.Facts == nil {
 			e.Facts = []int{}
 		}
+		if e.Warm == nil {
+			e.Warm = []string{}
+		}
 	}
 	type plain pairLine
 	return json.Marshal(plain(p))
@@ -881,6 +936,7 @@ func forkRulesBits(fork string) string { return fork }
 func writeRun(w *os.File, meta progMeta, a, r runOut) int {
 	enc := json.NewEncoder(w)
 	reset := SEv{K: "reset", Name: fmt.Sprintf("%d/%s/%s/%s/%d/%s", meta.Idx, meta.Name, meta.Fork, meta.Entry, meta.Gas, meta.Cfg), Kind: meta.Fork, I0: -2, I1: -2, I2: -2}
+	reset.Warm = a.warm
 	if strings.Contains(meta.Cfg, "3860") {
 		reset.Code = 3860 // EIP-3860 is enabled as an extra EIP: init code is priced per word on every fork
 	}
